@@ -12,6 +12,8 @@
     (truncation toward zero; the x86 "integer indefinite" value when out of range, flagged by
     the [_noovf] companions because it is undefined behaviour in C++). *)
 From Coq Require Import ZArith Bool List Floats Uint63.
+Set Warnings "-inexact-float".
+
 From Texel Require Import gen.TimeParams.
 Import ListNotations.
 Local Open Scope Z_scope.
